@@ -22,7 +22,7 @@ EXPLANATION += ' R5: no seed is tested for truthiness (seed 0 is honoured).'
 EXPLANATION += " R3's weighted-choice rule accepts a strict linear scan or a right bisection; the interval evaluator models `u or c` (u in [0,1), c > 0) as excluding 0."
 
 RND = "coba/random.py"
-PURE_IMPORT_MODULES = {"math", "itertools", "operator", "typing", "time"}
+PURE_IMPORT_MODULES = {"math", "itertools", "operator", "typing", "time", "bisect", "functools", "collections", "numbers", "abc", "heapq"}
 
 
 def run(ctx):
@@ -32,6 +32,7 @@ def run(ctx):
     r3_intervals(ctx)
     r3_reservoir_index(ctx)
     r4_consumers(ctx)
+    r6_generator_ownership(ctx)
 
 
 # ------------------------------------------------------------------------------------------ R1
@@ -110,12 +111,12 @@ def r1_effects(ctx):
 
 
 # ------------------------------------------------------------------------------------------ R2
-def r2_time_guard(ctx):
-    ctx.rule("C05.R2", "in CobaRandom.__init__ the clock is consulted only when the seed `is None` (not for other falsy seeds "
+def r2_time_guard(ctx, rule="C05.R2"):
+    ctx.rule(rule, "in CobaRandom.__init__ the clock is consulted only when the seed `is None` (not for other falsy seeds "
                        "such as '' or 0.0)")
     fn = ctx.fn(RND, "CobaRandom.__init__")
     calls = [c for c in walk_shallow(fn) if isinstance(c, ast.Call) and (call_name(c) or "").startswith("time.")]
-    ctx.floor("C05.R2", "clock reads in CobaRandom.__init__", len(calls), 1)
+    ctx.floor(rule, "clock reads in CobaRandom.__init__", len(calls), 1)
     for c in calls:
         ok = False
         for a in ancestors(c):
@@ -130,7 +131,7 @@ def r2_time_guard(ctx):
         for t, pol in guards_of(enclosing_stmt(c), fn):
             if (unparse(t) == "seed is None" and pol) or (unparse(t) == "seed is not None" and not pol):
                 ok = True
-        ctx.ob("C05.R2", RND, "CobaRandom.__init__", c, "time source is reachable only for seed is None", ok,
+        ctx.ob(rule, RND, "CobaRandom.__init__", c, "time source is reachable only for seed is None", ok,
                detail={"context": unparse(enclosing_stmt(c))[:140]})
 
 
@@ -259,6 +260,23 @@ def _ret(fn, arm=None):
     return rets
 
 
+def choicew_pairs(ctx, rule):
+    """choicew hands out a member together with the weight at the SAME sampled index (not a weight looked up by equality)."""
+    fn = ctx.fn(RND, "CobaRandom.choicew")
+    rets = _ret(fn)
+    ctx.floor(rule, "choicew returns", len(rets), 2)
+    for r in rets:
+        t = unparse(r.value)
+        if "weights[" in t:
+            IX = name_bound(fn, lambda v: unparse(v) == "self.choice(range(len(seq)), weights)", "i")
+            iv = assigned_value(fn, IX)
+            ok = t == f"(seq[{IX}], weights[{IX}])" and len(iv) == 1
+            ctx.ob(rule, RND, "CobaRandom.choicew", r, "weighted choicew returns seq[i], weights[i] for the one sampled index i", ok)
+        else:
+            ok = t == "(self.choice(seq), 1 / len(seq))"
+            ctx.ob(rule, RND, "CobaRandom.choicew", r, "unweighted choicew returns a member and 1/len(seq)", ok)
+
+
 def weighted_choice(ctx, rule):
     """CobaRandom.choice with weights: the item returned is the first one whose cumulative weight strictly exceeds U*tot (U in [0,1)).
     Accepted searches: the linear scan with a strict `<`, or a right-bisection of the cumulative weights.  `<=` / bisect_left select an item of
@@ -294,19 +312,14 @@ def weighted_choice(ctx, rule):
            stmt="tot")
 
 
-def r3_intervals(ctx):
-    ctx.rule("C05.R3", "interval abstract interpretation of every consumer of the uniform stream (real arithmetic): "
-                       "uniform in [0,1); random/randoms in [min,max); randint/randints in [a,b]; choice index in [0,len-1]; "
-                       "shuffle index j in [i,n-1] and swap-only stores; weighted choice compares strictly; choicew pairs "
-                       "seq[i] with weights[i]; log argument in gauss excludes 0")
-    ctx.assume("C05.R3 is decided over the reals: floating-point rounding at interval end points is not modelled")
-    ctx.assume("C05.R3 contracts assumed from the documented signatures: max > min, b >= a (integers), len(seq) >= 1, n >= 2 inside shuffle's loop, tot > 0, weights >= 0")
+def uniform_source(ctx, rule):
+    """the uniform stream lies in [0,1): LCG state masked to [0,m-1] and divided by m."""
     sym = Sym.var
     # --- the uniform source
     nu = ctx.fn(RND, "CobaRandom._next_uniform")
     init = ctx.fn(RND, "CobaRandom.__init__")
     calls = [c for c in walk_shallow(init) if isinstance(c, ast.Call) and call_tail(c) == "_next_uniform"]
-    ctx.floor("C05.R3", "_next_uniform call sites", len(calls), 1)
+    ctx.floor(rule, "_next_uniform call sites", len(calls), 1)
     params = [a.arg for a in nu.args.args[1:]]
     for c in calls:
         m_arg = c.args[params.index("m")] if "m" in params and len(c.args) > params.index("m") else None
@@ -317,7 +330,7 @@ def r3_intervals(ctx):
                 ok = isinstance(mv, int) and mv > 0 and (mv & (mv - 1)) == 0
             except Exception:
                 ok = False
-        ctx.ob("C05.R3", RND, "CobaRandom.__init__", c, "modulus m is a literal power of two (so `& (m-1)` is `mod m`)", ok,
+        ctx.ob(rule, RND, "CobaRandom.__init__", c, "modulus m is a literal power of two (so `& (m-1)` is `mod m`)", ok,
                detail={"m": unparse(m_arg) if m_arg is not None else None})
     M1 = name_bound(nu, lambda v: unparse(v) == "m - 1", "m_1")
     masks = assigned_value(nu, M1)
@@ -327,14 +340,25 @@ def r3_intervals(ctx):
     ok_upd = len(upd) == 1 and isinstance(upd[0].value, ast.BinOp) and isinstance(upd[0].value.op, ast.BitAnd) \
         and unparse(upd[0].value.right) in (M1, "m - 1") and unparse(upd[0].value.left) in ("a * s + c", "c + a * s", "s * a + c")
     ok_y = len(ys) == 1 and unparse(ys[0].value) == "s / m"
-    ctx.ob("C05.R3", RND, "CobaRandom._next_uniform", upd[0] if upd else nu,
+    ctx.ob(rule, RND, "CobaRandom._next_uniform", upd[0] if upd else nu,
            "state update is (a*s+c) & (m-1): s in [0, m-1]", ok_mask and ok_upd, stmt="lcg update")
-    ctx.ob("C05.R3", RND, "CobaRandom._next_uniform", ys[0] if ys else nu, "yielded uniform is s/m in [0, (m-1)/m] subset of [0,1)", ok_y, stmt="uniform = s/m")
+    ctx.ob(rule, RND, "CobaRandom._next_uniform", ys[0] if ys else nu, "yielded uniform is s/m in [0, (m-1)/m] subset of [0,1)", ok_y, stmt="uniform = s/m")
     # both streams are per-instance generators created in __init__
     st = [x for x in walk_shallow(init) if isinstance(x, ast.Assign) and any(is_self_attr(t, "_randu") for t in x.targets)]
-    ctx.ob("C05.R3", RND, "CobaRandom.__init__", st[0] if st else init, "self._randu is this instance's own _next_uniform generator seeded with the seed",
+    ctx.ob(rule, RND, "CobaRandom.__init__", st[0] if st else init, "self._randu is this instance's own _next_uniform generator seeded with the seed",
            len(st) == 1 and call_tail(st[0].value) == "_next_uniform" and unparse(st[0].value.args[1]) == "seed", stmt="self._randu store")
 
+
+
+def r3_intervals(ctx):
+    ctx.rule("C05.R3", "interval abstract interpretation of every consumer of the uniform stream (real arithmetic): "
+                       "uniform in [0,1); random/randoms in [min,max); randint/randints in [a,b]; choice index in [0,len-1]; "
+                       "shuffle index j in [i,n-1] and swap-only stores; weighted choice compares strictly; choicew pairs "
+                       "seq[i] with weights[i]; log argument in gauss excludes 0")
+    ctx.assume("C05.R3 is decided over the reals: floating-point rounding at interval end points is not modelled")
+    ctx.assume("C05.R3 contracts assumed from the documented signatures: max > min, b >= a (integers), len(seq) >= 1, n >= 2 inside shuffle's loop, tot > 0, weights >= 0")
+    sym = Sym.var
+    uniform_source(ctx, "C05.R3")
     # --- random
     fn = ctx.fn(RND, "CobaRandom.random")
     A = Abs({"min": Itv(sym("min"), sym("min")), "max": Itv(sym("max"), sym("max"))}, positive=[sym("max") - sym("min")], nonneg=[])
@@ -384,20 +408,7 @@ def r3_intervals(ctx):
         ok, d = A.check(s.slice, Sym(0), sym("len") - 1)
         ctx.ob("C05.R3", RND, "CobaRandom.choice", s, "unweighted choice index in [0,len-1]", ok, detail=d)
     weighted_choice(ctx, "C05.R3")
-    # --- choicew
-    fn = ctx.fn(RND, "CobaRandom.choicew")
-    rets = _ret(fn)
-    ctx.floor("C05.R3", "choicew returns", len(rets), 2)
-    for r in rets:
-        t = unparse(r.value)
-        if "weights[" in t:
-            IX = name_bound(fn, lambda v: unparse(v) == "self.choice(range(len(seq)), weights)", "i")
-            iv = assigned_value(fn, IX)
-            ok = t == f"(seq[{IX}], weights[{IX}])" and len(iv) == 1
-            ctx.ob("C05.R3", RND, "CobaRandom.choicew", r, "weighted choicew returns seq[i], weights[i] for the one sampled index i", ok)
-        else:
-            ok = t == "(self.choice(seq), 1 / len(seq))"
-            ctx.ob("C05.R3", RND, "CobaRandom.choicew", r, "unweighted choicew returns a member and 1/len(seq)", ok)
+    choicew_pairs(ctx, "C05.R3")
     # --- shuffle
     fn = ctx.fn(RND, "CobaRandom.shuffle")
     loops = [x for x in walk_shallow(fn) if isinstance(x, ast.For)]
@@ -648,7 +659,42 @@ def seed_truthiness(ctx, rule, prefixes=("coba/",)):
     ctx.note(f"{rule} examined {n_none} `seed is [not] None` tests; 0 truthiness tests expected")
     ctx.floor(rule, "`seed is None` style tests in the package (non-vacuity)", n_none, 5)
 
+def r6_generator_ownership(ctx, rule="C05.R6"):
+    """'regardless of any other generator instance': two holders never draw from one stream -- an attribute that holds a CobaRandom
+    is only ever bound to a generator constructed on the spot (or to None), never to a generator taken from another object."""
+    ctx.rule(rule, "generator ownership: in every class, an attribute that is somewhere bound to CobaRandom(...) is bound only to freshly constructed "
+                   "generators or None (never to a generator owned by another object: the two holders' streams would depend on each other's calls)")
+    n = 0
+
+    def fresh(v):
+        if isinstance(v, ast.Constant) and v.value is None:
+            return True
+        if isinstance(v, ast.Call) and (call_name(v) or "").split(".")[-1] == "CobaRandom":
+            return True
+        if isinstance(v, ast.IfExp):
+            return fresh(v.body) and fresh(v.orelse)
+        return False
+    for c in ctx.model.classes:
+        if c.rel.startswith("coba/tests"):
+            continue
+        stores = []
+        for name, fn in c.methods.items():
+            for st in ast.walk(fn):
+                if isinstance(st, ast.Assign):
+                    for t in st.targets:
+                        if is_self_attr(t):
+                            stores.append((name, t.attr, st))
+        gens = {a for _, a, st in stores if any(isinstance(x, ast.Call) and (call_name(x) or "").split(".")[-1] == "CobaRandom" for x in ast.walk(st.value))
+                and (fresh(st.value) or isinstance(st.value, (ast.IfExp, ast.BoolOp)))}
+        for name, a, st in stores:
+            if a in gens:
+                n += 1
+                ctx.ob(rule, c.rel, f"{c.name}.{name}", st, f"self.{a} is bound to a generator constructed here (or None)", fresh(st.value))
+    ctx.floor(rule, "stores to generator-holding attributes", n, 5)
+
+
 CONTROLS = [
+    ("re-wrapping carries on with the inner wrapper's generator", "coba/safety.py", M.replace_expr("SafeLearner.__init__", "CobaRandom(seed)", "learner._rng if isinstance(learner, SafeLearner) else CobaRandom(seed)"), "C05.R6"),
     ("shuffle early return of the input", RND, M.replace_stmt("CobaRandom.shuffle", M.text_has("if n < 2"), "if n < 2:\n    return items"), "C05.R3"),
     ("reservoir index off by one", "coba/pipes/filters.py", M.replace_expr("Reservoir.filter", "int(r3 * count)", "int(r3 * count) + 1"), "C05.R3"),
     ("module state in method", RND, M.replace_expr("CobaRandom.random", "next(self._randu)", "next(_random._randu)"), "C05.R1"),
